@@ -124,7 +124,7 @@ theorem idsNodup_iff (l : List Nat) : idsNodup l = true ↔ l.Nodup := by
 
 theorem wf_nodup (p : Program) (h : wf p = true) : ((allStages p).map Stage.id).Nodup := by
   simp only [wf, Bool.and_eq_true] at h
-  exact (idsNodup_iff _).mp h.1.1.1
+  exact (idsNodup_iff _).mp h.1.1.1.1
 
 /-- with distinct ids a stage is found by its id -/
 theorem findStage_of_mem (p : Program) (h : wf p = true) (st : Stage) (hm : st ∈ allStages p) :
